@@ -106,10 +106,13 @@ def _is_flag(t, rows, col):
 
 
 def guard_verdict(pc, rows, col):
-    """Among the path conditions, find those depending on `col` of `rows`.
-    -> (found, ok, text): ok iff the recorded polarity is what the guard
-    evaluates to when NO row has the flag, and differs when some row has it."""
+    """Among the path conditions (those decided after the select was taken),
+    find the ones depending on `col` of `rows`.
+    -> (found, ok, text): ok iff some condition distinguishes 'no row has the
+    flag' from 'some row has it' and the path took the no-row polarity, and no
+    evaluable condition contradicts it."""
     found = False
+    good = None
     for (t, b, site) in pc:
         if not flag_terms(t, rows, col):
             continue
@@ -118,12 +121,15 @@ def guard_verdict(pc, rows, col):
             none = _truth(eval_flag(t, rows, col, False))
             some = _truth(eval_flag(t, rows, col, True))
         except Unknown:
-            return True, False, "guard expression on `%s` is not understood" % col
+            continue
         if none == some:
-            return True, False, "guard does not distinguish 'no row has %s' from " \
-                "'some row has %s'" % (col, col)
+            continue
         if b != none:
             return True, False, "the deletion happens on the branch where some row still " \
                 "has `%s`" % col
-        return True, True, "reached only when no row has `%s`" % col
-    return found, False, "not guarded by the `%s` flags of the side rows" % col
+        good = "reached only when no row has `%s`" % col
+    if good:
+        return True, True, good
+    if found:
+        return True, False, "the conditions on `%s` do not establish that no row has it" % col
+    return False, False, "not guarded by the `%s` flags of the side rows" % col
